@@ -40,7 +40,8 @@ SPEC = {
 }
 
 TREE = [('a', 'f', None), ('b', 'f', None), ('.h', 'f', None), ('d', 'd', None), ('d/a', 'f', None), ('d/.x', 'f', None),
-        ('d/e', 'd', None), ('d/e/ab', 'f', None), ('L', 'l', 'd'), ('A', 'f', None), ('c.d', 'f', None)]
+        ('d/e', 'd', None), ('d/e/ab', 'f', None), ('L', 'l', 'd'), ('A', 'f', None), ('c.d', 'f', None),
+        ('D', 'd', None), ('D/a', 'f', None), ('D/B', 'f', None), ('d/A', 'f', None)]
 
 FN_SETS = [(), ('EXTMATCH',), ('EXTMATCH', 'DOTMATCH'), ('IGNORECASE',), ('EXTMATCH', 'FORCEWIN'), ('EXTMATCH', 'NEGATE'),
            ('EXTMATCH', 'SPLIT'), ('EXTMATCH', 'BRACE'), ('EXTMATCH', 'CASE', 'IGNORECASE'), ('RAWCHARS',), ('EXTMATCH', 'NEGATE', 'NEGATEALL'),
@@ -65,7 +66,7 @@ def build_pool(seed, n_texts=640):
         seen.add(t)
         texts.append(t)
     fixed = ['*', '?', '*.d', 'a*', '[ab]', '!a', 'a|b', '{a,b}', '**', '**/a', '@(a|b)', '!(a)', '*(a)', '.*', '\\x61', 'd/*', '*/a', 'A', 'a',
-             '+(a|b)', '*(a|b)b', '[a/|b]x', '[a|b]', '{a,b}|c', '@(a|{b,c})', 'a\\|b', '!(a|b)|a', 'd/@(a|e)', '~', '-a', '{a..c}']
+             'd/a', 'D/a', 'd/A', 'd/e/ab', 'D/*', 'd/e/*', '*/A', 'L/a', '+(a|b)', '*(a|b)b', '[a/|b]x', '[a|b]', '{a,b}|c', '@(a|{b,c})', 'a\\|b', '!(a|b)|a', 'd/@(a|e)', '~', '-a', '{a..c}']
     texts = fixed + texts
     pool = []
     for i, t in enumerate(texts):
@@ -80,6 +81,10 @@ def build_pool(seed, n_texts=640):
                 pool.append({'api': ('glob.' if glob_mode else 'fnmatch.') + api, 'pat': t, 'flags': list(fs), 'bytes': True})
         if heavy and '\\' not in t and not t.startswith('/'):
             pool.append({'api': 'glob.glob', 'pat': t, 'flags': list(rng.choice(GL_SETS[1:4] + GL_SETS[11:13])), 'bytes': rng.random() < 0.3})
+            # the same text through the walker under a case-insensitive and a case-sensitive rule, str and bytes
+            pool.append({'api': 'glob.glob', 'pat': t, 'flags': ['EXTMATCH', 'IGNORECASE'], 'bytes': False})
+            pool.append({'api': 'glob.glob', 'pat': t, 'flags': ['EXTMATCH', 'CASE'], 'bytes': False})
+            pool.append({'api': 'glob.glob', 'pat': t, 'flags': ['EXTMATCH', 'IGNORECASE', 'GLOBSTAR'], 'bytes': True})
             pool.append({'api': 'pathlib.match', 'pat': t, 'flags': list(rng.choice([('EXTMATCH',), ('EXTMATCH', 'GLOBSTAR'), ('EXTMATCH', 'DOTMATCH')])), 'bytes': False})
             pool.append({'api': 'wcmatch', 'pat': t, 'flags': [], 'bytes': rng.random() < 0.3})
     for i, c in enumerate(pool):
@@ -382,6 +387,53 @@ def pickles_across_interpreters(ctx, pool, rng):
                 return
 
 
+def mutated_arguments(ctx):
+    """The answer depends on the VALUE of the arguments at the time of the call: a caller may reuse and mutate its pattern /
+    exclude / name lists between calls; a matcher compiled from a list keeps the patterns it was given."""
+    n = 0
+    names = ['a', 'b', 'ab', 'ba', '.a', 'a/b', 'b/a']
+    for mod, one, flt in ((F, F.fnmatch, F.filter), (G, G.globmatch, G.globfilter)):
+        for fl in (0, mod.NEGATE, mod.SPLIT, mod.BRACE | mod.EXTMATCH, mod.IGNORECASE):
+            for conv in (lambda x: x, lambda x: [y.encode() for y in x]):
+                nm = conv(names)
+                for first, second in ((['a*'], ['b*']), (['a*', 'b'], ['?', 'b']), (['*'], ['*', 'zz'])):
+                    pats = conv(list(first))
+                    fresh2 = conv(list(second))
+                    excl = conv(['b*'])
+                    calls = [
+                        ('one-shot', lambda p: [one(x, p, flags=fl) for x in nm]),
+                        ('filter', lambda p: flt(nm, p, flags=fl)),
+                        ('compile+filter', lambda p: mod.compile(p, flags=fl).filter(nm)),
+                        ('translate', lambda p: mod.translate(p, flags=fl)),
+                        ('exclude=', lambda p: flt(nm, conv(['*']), flags=fl, exclude=p)),
+                    ]
+                    for what, call_ in calls:
+                        try:
+                            lst = list(pats)
+                            call_(lst)                      # first call with the list object
+                            lst[:] = fresh2                 # the caller re-uses its list
+                            got = call_(lst)
+                            want = call_(list(fresh2))      # a list object never seen before
+                            m = mod.compile(lst, flags=fl)
+                            before = m.filter(nm)
+                            lst[:] = conv(['zz'])           # mutating the list afterwards does not reach into the matcher
+                            after = m.filter(nm)
+                        except Exception as e:  # noqa: BLE001
+                            ctx.disagree(f'mutated argument list: {what} raised {type(e).__name__}', {'mode': 'mutated-arguments', 'call': what})
+                            continue
+                        n += 2
+                        if got != want:
+                            ctx.disagree('the answer follows an earlier content of a list argument that the caller has changed since',
+                                         {'mode': 'mutated-arguments', 'api': mod.__name__, 'call': what, 'first_content': repr(pats), 'content_now': repr(fresh2),
+                                          'observed': repr(got)[:200], 'fresh_list': repr(want)[:200]})
+                        if before != after:
+                            ctx.disagree('a compiled matcher changes when the list it was built from is mutated',
+                                         {'mode': 'mutated-arguments', 'api': mod.__name__, 'before': repr(before), 'after': repr(after)})
+                    _ = excl
+    ctx.evals(n)
+    ctx.count('mutated_argument_checks', n)
+
+
 def matcher_reuse_across_fs(ctx):
     """A compiled REALPATH matcher is a pure function of (its arguments, the file system): reusing one object while the
     file system, the working directory or the directory behind a dir_fd changes must give the answers of a fresh call."""
@@ -596,11 +648,18 @@ def run(ctx):
         matcher_objects(ctx, pool, ctx.rng_for('mo', ctx.shard))
         pickles_across_interpreters(ctx, pool, ctx.rng_for('px', ctx.shard))
         if ctx.shard == 0:
+            mutated_arguments(ctx)
+        else:
+            ctx.count('mutated_argument_checks', 0)
+        if ctx.shard == 0:
             ctx.sample({'pool_size': len(pool), 'distinct_texts': len(texts), 'example_calls': pool[:3],
                         'texts_under_several_flag_sets': sum(1 for v in texts.values() if len(v) > 1)})
 
 
 def replay(ctx, w):
+    if w.get('mode') == 'mutated-arguments':
+        mutated_arguments(ctx)
+        return ctx.violations or None
     if w.get('mode') == 'pickle-across-interpreters':
         pool = build_pool(ctx.seed)
         for sh in range(16):
